@@ -147,7 +147,7 @@ def run(res):
     vh, exe = P.base(res, PROP)
     devs = [d for d in gen.read_devices(vh)[1:] if d[1] >= 512]
     rng = random.Random(res.seed)
-    cases = [gen_case(rng, devs) for _ in range(4000 if res.tier == "quick" else 400000)]
+    cases = [gen_case(rng, devs) for _ in range(4000 if res.tier == "quick" else 1500000)]
     texts = [c[0] for c in cases]
     obs = P.correspond(res, vh, exe, texts, "layout programs")
     nerr = ncap = 0
